@@ -204,6 +204,8 @@ type c01Case struct {
 	// LaterIfaces (C04): interfaces that were NOT registered during this round but are registered afterwards on the
 	// same object; a replay runs the round, registers them during a pause in serving, and runs the round again
 	LaterIfaces []string `json:"later_ifaces,omitempty"`
+	// AllOpenFirst: every connection of the round is established before any of them sends its first byte
+	AllOpenFirst bool `json:"all_open_first,omitempty"`
 	Conns     []*ConnScript `json:"conns"`
 }
 
@@ -220,6 +222,12 @@ func c01Round(r *fw.Run, g *Rig, prop string, cc *c01Case, exact bool) int {
 	models := make([]*MOut, n)
 	var wg, wgStall sync.WaitGroup
 	release := make(chan struct{})
+	var hooks *exchangeHooks
+	if cc.AllOpenFirst {
+		var dialled sync.WaitGroup
+		dialled.Add(n)
+		hooks = &exchangeHooks{afterDial: func() { dialled.Done(); dialled.Wait() }}
+	}
 	for i, cs := range cc.Conns {
 		data, bounds, frames := cs.plan()
 		models[i] = modelConn(frames, g.Reg)
@@ -227,7 +235,7 @@ func c01Round(r *fw.Run, g *Rig, prop string, cc *c01Case, exact bool) int {
 			wgStall.Add(1)
 			go func(i int, data []byte) {
 				defer wgStall.Done()
-				ex, err := rawStall(g.Net, g.Dial, data, release)
+				ex, err := rawStall(hooks, g.Net, g.Dial, data, release)
 				obs[i] = connObs{ex, err}
 			}(i, data)
 			continue
@@ -247,7 +255,7 @@ func c01Round(r *fw.Run, g *Rig, prop string, cc *c01Case, exact bool) int {
 				}
 				time.Sleep(30 * time.Millisecond)
 			}
-			ex, err := rawExchange(g.Net, g.Dial, data, seg, end, 40*time.Second, slow)
+			ex, err := rawExchangeH(hooks, g.Net, g.Dial, data, seg, end, 40*time.Second, slow)
 			obs[i] = connObs{ex, err}
 		}(i, data, seg, end, cs.SlowUS, cs.WaitFor)
 	}
@@ -296,10 +304,12 @@ func c01Round(r *fw.Run, g *Rig, prop string, cc *c01Case, exact bool) int {
 		ex := obs[i].ex
 		known[ex.Local] = i
 		if ex.Stalled {
-			if perr := g.Probe(); perr == nil {
+			// the service is alive (the barrier probe made after this round was answered) but left this connection
+			// without bytes and without EOF for 40 s
+			if barrierErr == nil {
 				report("stall", fmt.Sprintf("no bytes and no EOF for 40 s although the service answers a probe; received so far %d bytes", len(ex.Got)), i)
 			} else {
-				r.Inconclusive("connection stalled and the probe failed too: %v", perr)
+				r.Inconclusive("connection stalled and the probe failed too: %v", barrierErr)
 			}
 			continue
 		}
@@ -409,6 +419,24 @@ func runC01(r *fw.Run) {
 			}
 			r.Count("rounds", 1)
 			r.Count("connections", int64(nconn))
+		}
+		// many connections open at the same time (all established before the first byte is sent)
+		for k := 0; k < r.Pick(2, 8) && !g.tainted && r.ViolationCount() <= 12; k++ {
+			cc := &c01Case{Transport: cf.tr, UseListen: cf.listen, Ifaces: c01Ifaces, AllOpenFirst: true}
+			for j := 0; j < r.Pick(150, 400); j++ {
+				tagN++
+				if j%3 != 0 {
+					// an idle connection that stays open for the whole round
+					cc.Conns = append(cc.Conns, &ConnScript{Stream: []byte{}, Cut: -1, Stall: true, What: "idle, held open"})
+					continue
+				}
+				cc.Conns = append(cc.Conns, genConnScript(rng, jg, fmt.Sprintf("c%d", tagN), 3, false))
+			}
+			r.Journal(0, map[string]interface{}{"what": "many simultaneous connections", "n": len(cc.Conns)})
+			c01Round(r, g, "C01", cc, true)
+			r.Done(0)
+			r.Max("max_simultaneous_connections", int64(len(cc.Conns)))
+			r.Case(fw.Hash("many", fmt.Sprint(ci, k)), true)
 		}
 		// a client that stops reading in the middle of a multi-MiB reply keeps its own handler blocked in a write;
 		// every other connection of the service must be served as if it were not there
